@@ -170,6 +170,32 @@ TABLE = [
       'ops': [['map', ['id'], 4, 2, False, True], ['take', 0], ['take', 1],
               ['deliver', 0], ['deliver', 1], ['finish', 0], ['slow', 0, 25.0],
               ['die', 0, -9], ['tick'], ['deliver', 0], ['adv', 11.0], ['tick']]}),
+    ('D27-close-races-replacement', 'C07', 'sim', 'fixed', 'df8c3a7',
+     'join-blocks',
+     'close() queued the task handler\'s sentinel before it waited for the '
+     'supervisor: a task handler that counted the workers (one exit sentinel '
+     'each) while the supervisor had removed a dead worker and not yet listed '
+     'its replacement sent one sentinel too few, the replacement never exited '
+     'and join() blocked for ever',
+     {'config': cfg(),
+      'ops': [['die', 4, -1], ['closerace', 'create']]}),
+    ('D27-real-close-races-replacement', 'C07', 'real', 'fixed', 'df8c3a7',
+     'C07/join-hangs',
+     'real pool of 3 whose replacement workers are slow to build: an idle worker '
+     'is told to exit, close() is called once the supervisor has taken it off '
+     'the list; join() never returned (first seen as a hang of a generated '
+     'scenario on a loaded machine, where the victim was slow to die)',
+     {'procs': 3, 'threads': True, 'maxtasks': None,
+      'jobs': [['apply', 0.02], ['map', 5, 2, 0.02], ['imap', 3, 0.02]],
+      'close_after': 0, 'replace': 'race'}),
+    ('D28-map-while-pool-empty', 'C02', 'real', 'fixed', 'd2b464a',
+     'C02/real-map-value',
+     'map() with the default chunk size while every worker is being replaced '
+     '(the list of workers is empty between reaping and restarting - a pool of '
+     'one recycling its worker, or all workers told to exit at once) raised '
+     'ZeroDivisionError from divmod(len(iterable), len(self._pool) * 4)',
+     {'procs': 2, 'entry': 'map', 'n': 9, 'cs': None, 'bad': [],
+      'exc': 'ValueError', 'pre': 'apply', 'replacing': True}),
     ('D14-double-shrink', 'C09', 'sim', 'fixed', 'ebdf4d5',
      'C09/above-size',
      'two shrink(1) calls within one supervision period terminated the same '
